@@ -8,6 +8,16 @@ from . import common, machine_common as mc
 from .common import log
 
 
+def split_shape(p):
+    """shape classes of a program that matter when it is split over two files (known-finding keys name the input class):
+    two structures / words whose member types are the same list (the open defects around imported structures of equal layout)"""
+    tags = []
+    layouts = [json.dumps([m["ty"] for m in d["ms"]], sort_keys=True) for d in p.get("structs", [])]
+    if len(set(layouts)) < len(layouts):
+        tags.append("imported-same-layout")
+    return (" [" + ",".join(tags) + "]") if tags else ""
+
+
 def build_trace(programs, results):
     """-> (lines, index): ndjson lines and, per program, the line number of its `prog` record"""
     lines = []
@@ -165,7 +175,7 @@ def run_random(rep, prop, tier, seed, layouts, count=None, gen_args=None, tag=No
                     sig = " crash"
                 if x.get("split"):
                     # the same declarations split over lib.pn (everything but main, marked pub) and main.pn (imports it)
-                    rep.violation("random-split", "program seed=%d index=%d :: split%s" % (seed, i, sig),
+                    rep.violation("random-split", "program seed=%d index=%d :: split%s%s" % (seed, i, sig, split_shape(programs[i])),
                                   {"problem": "the program split over two files does not behave like the single file",
                                    "canonical": {"stdout": base["stdout"], "exit": base.get("exit")},
                                    "variant": {k: x.get(k) for k in ("stdout", "exit", "rejected", "diags", "crash", "panic")},
